@@ -476,8 +476,8 @@ fn save_state(nw: &NW, done: bool, restart: Option<&str>) -> Value {
     let w = &nw.w;
     json!({
         "done": done, "restart": restart, "rng": nw.rng.0, "nonce": nw.nonce, "salt": w.salt, "twins": nw.twins, "miner_only": nw.miner_only,
-        "outs": w.outs.iter().map(|o| json!({"op": hex(o.op.as_slice()), "cap": o.cap, "name": [o.name.0, o.name.1], "creator": o.creator, "lv": o.lock_variant})).collect::<Vec<_>>(),
-        "txs": w.txs.iter().map(|t| json!({"name": t.name, "view": hex(t.view.data().as_slice()), "ins": t.ins, "deps": t.deps, "hdeps": t.hdeps, "outs": t.outs,
+        "outs": w.outs.iter().map(|o| json!({"op": hex(o.op.as_slice()), "cap": o.cap, "name": [o.name.0, o.name.1], "creator": o.creator, "lv": o.lock_variant, "members": o.members})).collect::<Vec<_>>(),
+        "txs": w.txs.iter().map(|t| json!({"name": t.name, "view": hex(t.view.data().as_slice()), "ins": t.ins, "deps": t.deps, "gdeps": t.gdeps, "hdeps": t.hdeps, "outs": t.outs,
             "fee": t.fee, "size": t.size, "cycles": t.cycles})).collect::<Vec<_>>(),
         "blocks": w.blocks.iter().map(|b| json!({"name": b.name, "view": hex(b.view.data().as_slice()), "parent": b.parent, "props": b.props, "commits": b.commits,
             "unknown": b.unknown_commits})).collect::<Vec<_>>(),
@@ -503,13 +503,13 @@ fn load_world(scn: &Scn, node: Node, s: Option<&Value>) -> World {
     w.outs = s["outs"].as_array().unwrap().iter().map(|o| OutRec {
         op: OutPoint::from_slice(&unhex(o["op"].as_str().unwrap())).unwrap(), cap: o["cap"].as_u64().unwrap(),
         name: (o["name"][0].as_str().unwrap().to_string(), o["name"][1].as_u64().unwrap() as u32),
-        creator: o["creator"].as_u64().map(|x| x as usize), lock_variant: o["lv"].as_u64().unwrap() as u8 }).collect();
+        creator: o["creator"].as_u64().map(|x| x as usize), lock_variant: o["lv"].as_u64().unwrap() as u8, members: o.get("members").map(&us).unwrap_or_default() }).collect();
     for t in s["txs"].as_array().unwrap() {
         let view: TransactionView = packed::Transaction::from_slice(&unhex(t["view"].as_str().unwrap())).unwrap().into_view();
         let idx = w.txs.len();
         w.tx_by_hash.insert(view.hash(), idx);
         w.tx_by_short.insert(view.proposal_short_id(), idx);
-        w.txs.push(TxRec { name: t["name"].as_str().unwrap().to_string(), view, ins: us(&t["ins"]), deps: us(&t["deps"]), hdeps: us(&t["hdeps"]), outs: us(&t["outs"]),
+        w.txs.push(TxRec { name: t["name"].as_str().unwrap().to_string(), view, ins: us(&t["ins"]), deps: us(&t["deps"]), gdeps: t.get("gdeps").map(&us).unwrap_or_default(), hdeps: us(&t["hdeps"]), outs: us(&t["outs"]),
             fee: t["fee"].as_u64().unwrap(), size: t["size"].as_u64().unwrap(), cycles: t["cycles"].as_u64().unwrap() });
     }
     for b in s["blocks"].as_array().unwrap() {
